@@ -180,6 +180,31 @@ def run(ctx):
         e = run_sub(pu, inn, tn, td, a, b)
         e["mode"] = "V"
         evs.append(e)
+    # exact ties: an inner control point at a distance EXACTLY equal to the flatness is not "closer than" it - the piece must be split.
+    # Flatness values with a rational square root (1/2, 1, 3/2, 2) on chords along an axis and along 3-4-5 directions; everything stays
+    # exact in binary floating point (small dyadic numbers), so the code meets the tie itself, not a rounded neighbour of it.
+    for L in (3, 4, 6):
+        for t, (tn, td) in ((1, (1, 1)), (2, (4, 1))):
+            for x1 in range(0, L + 1):
+                for x2, y2 in ((x1, t), (L - x1, -t), (L, 0), (x1, 0)):
+                    for swap in (False, True):
+                        p0, p1, p2, p3 = [0, 0], [x1, t], [x2, y2], [L, 0]
+                        if swap:
+                            p0, p1, p2, p3 = [p0[1], p0[0]], [p1[1], p1[0]], [p2[1], p2[0]], [p3[1], p3[0]]
+                        S = lambda p: [p[0] * SC, p[1] * SC]  # noqa: E731
+                        inn = [[S(p0), S(p0), S(p1)], [S(p2), S(p3), S(p3)]]
+                        a, b, _m = MAPS[(x1 + L + t) % 2]
+                        e = run_sub(pu, inn, tn, td, a, b)
+                        e["mode"] = "V"
+                        evs.append(e)
+    for (tn, td) in ((1, 4), (9, 4), (1, 1)):
+        for _ in range(40 if tier == "quick" else 400):
+            S2 = rng.choice([2, 3, 4])
+            pt = lambda: [rng.randint(0, S2) * SC, rng.randint(0, S2) * SC]  # noqa: E731
+            inn = [[pt(), pt(), pt()], [pt(), pt(), pt()]]
+            e = run_sub(pu, inn, tn, td, 1.0, 0.0)
+            e["mode"] = "V"
+            evs.append(e)
     ok_evs = [e for e in evs if e["status"] == "ok"]
     vs = judge(ctx, "v", ok_evs)
     rej = 0
